@@ -162,9 +162,10 @@ def build_driver(pkg, tags=None):
     else:
         # keep go.mod/go.sum in sync with the repo (cheap)
         setup_harness()
-    out = os.path.join(HARNESS, "bin", pkg + ".test")
+    race = os.environ.get("VERIF_RACE") == "1"  # audit mode: drivers built with the Go race detector (slow; exit 66 on a race)
+    out = os.path.join(HARNESS, "bin", pkg + (".race.test" if race else ".test"))
     os.makedirs(os.path.dirname(out), exist_ok=True)
-    cmd = ["go", "test", "-c", "-vet=off", "-overlay", "overlay.json", "-o", out]
+    cmd = ["go", "test", "-c", "-vet=off", "-overlay", "overlay.json", "-o", out] + (["-race"] if race else [])
     if tags:
         cmd += ["-tags", tags]
     cmd.append("./drivers/" + pkg)
